@@ -295,6 +295,7 @@ def header_rule(ctx, fb, fm):
         inst = fb.calls_to("rayon::ThreadPool::install")
         ok = ok and inst and idx_of(hw[0]) is not None and idx_of(hw[0]) < idx_of(inst[0])
         ok = ok and fb.in_closure_passed_to(hw[0], lambda c: True) is None
+    hw_batch = hw
     ctx.check("C05.H", "vectorise_batch:header_once", bool(ok), "header written once under self.header before any row",
               "batch path: header line is not written exactly once, under `self.header`, before the batches",
               line_of(hw[0]) if hw else fb.fn["sp"])
@@ -304,6 +305,28 @@ def header_rule(ctx, fb, fm):
     ctx.check("C05.H", "vectorise_mmap:header_once", ok, "header written once under self.header outside the workers",
               "mmap path: header is not written exactly once under `self.header` outside the worker closures",
               line_of(hw[0]) if hw else fm.fn["sp"])
+    # no normally-ending exit before the header write: `if nothing_to_do { return Ok(()) }` placed ahead of it drops the
+    # column line for exactly the inputs that take the exit (error exits — `Err(..)`, `?` — are not results)
+    for fv_, who_, hw_ in ((fb, "vectorise_batch", hw_batch), (fm, "vectorise_mmap", hw)):
+        bad = None
+        if hw_:
+            order = {id(x): i for i, x in enumerate(fv_.nodes)}
+            for r in fv_.nodes:
+                if r.get("k") != "ret" or order.get(id(r), 1 << 60) > order.get(id(hw_[0]), -1):
+                    continue
+                if fv_.enclosing(r, ("closure",)) is not None:
+                    continue
+                t = fv_.term(r["e"]) if r.get("e") is not None else ("unit",)
+                if (t[0] == "call" and t[1].endswith("::Err")) or t[0] == "try":
+                    continue
+                if (SF("header"), False) in [(fv_.term(c), p) for c, p in fv_.guards(r, with_asserts=False)]:
+                    continue
+                bad = r
+                break
+        ctx.check("C05.H", "%s:header_before_exit" % who_, bad is None,
+                  "no normally-ending exit precedes the header write",
+                  "%s can return normally before the header line is written: `-H` then adds no column line for the "
+                  "inputs that take this exit" % who_, line_of(bad) if bad is not None else None)
     # the header string itself (mutable local assigned under self.header): size bookkeeping
     ht, hkind, _ = header_value(fm)
     asg = [n for n in fm.nodes if n.get("k") == "assign" and n["l"].get("k") == "local" and n["l"]["name"] == "header"]
